@@ -23,6 +23,7 @@ def std_inputs(nval, kval=2):
         I.make_array("c", "real", [(0, mval)], [F(-4 * i - 1, 4) for i in rng]),
         I.make_array("q", "real", [(0, mval), (0, mval)],
                      [F(800 + 80 * i + 8 * j + 1, 8) for j in rng for i in rng]),
+        I.make_array("iv", "int", [(0, mval)], [i % 3 for i in rng]),
     ]
 
 
